@@ -209,6 +209,8 @@ pub struct Mvm {
     actors_dirty: RefCell<bool>,
     // None = deleted
     actors_cache: RefCell<HashMap<Address, Option<ActorState>>>,
+    /// keys of `actors_cache` changed since the last checkpoint
+    dirty_keys: RefCell<Vec<Address>>,
     pub invs: RefCell<Vec<Inv>>,
     network_version: NetworkVersion,
     curr_epoch: RefCell<ChainEpoch>,
@@ -247,6 +249,7 @@ impl Mvm {
             circulating_supply: RefCell::new(TokenAmount::zero()),
             actors_dirty: RefCell::new(false),
             actors_cache: RefCell::new(HashMap::new()),
+            dirty_keys: RefCell::new(vec![]),
             network_version: NetworkVersion::V16,
             curr_epoch: RefCell::new(0),
             invs: RefCell::new(vec![]),
@@ -278,16 +281,19 @@ impl Mvm {
                 DEFAULT_HAMT_CONFIG,
             )
             .unwrap();
-        for (addr, act) in self.actors_cache.borrow().iter() {
-            match act {
-                Some(a) => {
+        let cache = self.actors_cache.borrow();
+        for addr in self.dirty_keys.borrow_mut().drain(..) {
+            match cache.get(&addr) {
+                Some(Some(a)) => {
                     actors.set(addr.to_bytes().into(), a.clone()).unwrap();
                 }
-                None => {
+                Some(None) => {
                     actors.delete(&BytesKey::from(addr.to_bytes())).unwrap();
                 }
+                None => {}
             }
         }
+        drop(cache);
         self.state_root.replace(actors.flush().unwrap());
         self.actors_dirty.replace(false);
         *self.state_root.borrow()
@@ -295,6 +301,7 @@ impl Mvm {
 
     pub fn rollback(&self, root: Cid) {
         self.actors_cache.replace(HashMap::new());
+        self.dirty_keys.borrow_mut().clear();
         self.state_root.replace(root);
         self.actors_dirty.replace(false);
     }
@@ -319,6 +326,7 @@ impl Mvm {
 
     pub fn delete_actor_entry(&self, key: &Address) {
         self.actors_cache.borrow_mut().insert(*key, None);
+        self.dirty_keys.borrow_mut().push(*key);
         self.actors_dirty.replace(true);
     }
 
@@ -577,6 +585,7 @@ impl VM for Mvm {
 
     fn set_actor(&self, key: &Address, a: ActorState) {
         self.actors_cache.borrow_mut().insert(*key, Some(a));
+        self.dirty_keys.borrow_mut().push(*key);
         self.actors_dirty.replace(true);
     }
 
